@@ -1006,6 +1006,65 @@ def empty_record_pairs(chk, work, base):
                mismatches=bad[0], branches=br)
 
 
+def ground_cell_pairs(chk, work, base):
+    """Round 8: rural files (>= 3 ground-temperature depths) whose GROUND TEMPERATURES line is damaged or unusual in
+    a MONTHLY cell of a record the model uses or does not use: blank, blanks only, 'None', '-', a missing marker
+    spelling. The unchanged tree refuses such a file when it reads the cell (a refusal produces no urban value: fine);
+    whatever it ACCEPTS must obey the same causality as any other file: rows after the cut hour, and a longer window
+    from the same start, leave the hours up to the cut bit-identical - a tree that falls back on a whole-window
+    statistic for such a file does not."""
+    import s1_util as S
+    rng = chk.rng
+    thorough = chk.tier == 'thorough'
+    total, bad, br = 0, [0], {}
+    spell = ['', ' ', '  ', 'None', '-', 'nan', '99', '+21.5 ', '2.15e1']
+    members = []
+    for rep in range(2 if not thorough else 8):
+        month, day = rng.choice([(1, 1), (2, 27), (6, 29), (9, 14), (12, 27), (4, 30)])
+        rec = [0, 1, 2, 0][rep % 4]                       # record 0 = 0.5 m (the road's), 2 = the third (water)
+        mon = [month - 1, month - 1, (month) % 12, month - 1][rep % 4] if rep % 4 != 3 else (month + 5) % 12
+        members.append((month, day, rec, mon, spell[rep % len(spell)] if rep < 2 or not thorough else rng.choice(spell)))
+    members.append((1, 1, 0, 0, ''))                      # the used record, the simulated month, blank
+    members.append((6, 29, 2, 5, ''))                     # the third record, the simulated month, blank
+    for (month, day, rec, mon, text) in members:
+        first, nh = 8 + 24 * S.doy0(month, day), 24
+        rows = S.copy_rows(base)
+        rows[3] = list(rows[3])
+        old = rows[3][6 + 16 * rec + mon]
+        rows[3][6 + 16 * rec + mon] = text
+        src = S.save_epw(rows, os.path.join(work, 'gc_src.epw'))
+        h = rng.randint(0, 12)
+        pert = S.copy_rows(rows)
+        for i in range(first + h + 1, first + nh + 24):
+            for c in MODELLED:
+                pert[i][c] = perturb_value(rng, c, pert[i][c])
+        attrs = dict(month=month, day=day, nday=1, dtsim=rng.choice([300, 600, 900]))
+        a, e1 = try_run(src, work, 'gca.epw', **attrs)
+        case = {'kind': 'ground-cell', 'params': attrs, 'cut_hour': h, 'first_row': first,
+                'ground record (0-based)': rec, 'month cell (0-based)': mon, 'old text': old, 'new text': text,
+                'epw': 'shipped Singapore file with that one cell of header line 4 replaced'}
+        total += 1
+        if a is None:
+            br['refused: ' + e1.split(':')[0]] = br.get('refused: ' + e1.split(':')[0], 0) + 1
+            continue
+        br['accepted'] = br.get('accepted', 0) + 1
+        b, e2 = try_run(S.save_epw(pert, os.path.join(work, 'gc_pert.epw')), work, 'gcb.epw', **attrs)
+        c2, e3 = try_run(src, work, 'gcc.epw', **dict(attrs, nday=2))
+        if b is not None:
+            cmp_runs(chk, 'after-cut, unusual monthly cell in the ground-temperature header (both files)', case, a, b,
+                     first, h + 1, bad)
+        if c2 is not None:
+            cmp_runs(chk, 'longer window from the same start, unusual monthly cell in the ground-temperature header',
+                     dict(case, other_params=dict(attrs, nday=2)), a, c2, first, 24, bad)
+    chk.direct('paired-runs(unusual monthly cells of the ground-temperature header)', total, total,
+               'the shipped Singapore file (3 ground depths) with ONE monthly cell of header line 4 replaced - in the '
+               'record the road uses, the third record, an unused record; the simulated month, the next, one half a year '
+               'away - by: blank, blanks, None, -, nan, 99, "+21.5 ", 2.15e1. A refused file produces no urban value '
+               '(counted); an accepted one is run three times (as is, rows after a random cut hour perturbed in all '
+               'modelled columns, two days instead of one): records and written cells for hours up to the cut bit-identical',
+               mismatches=bad[0], branches=br)
+
+
 def run(chk):
     from props import step
     chk.proof(MODULE, THEOREMS + step.THEOREMS, extra_modules=[step.MODULE])
@@ -1162,6 +1221,7 @@ def run(chk):
     handover_twins(chk, work, base)
     extreme_and_stamp_twins(chk, work, base)
     empty_record_pairs(chk, work, base)
+    ground_cell_pairs(chk, work, base)
     # composition C: the physics of one step as one Lean function, tied exactly to the real loop body
     step.run_step(chk)
     chk.assumptions.append('the theorems hold for ANY physics that is a function of (state, current forcing row, '
